@@ -1076,6 +1076,12 @@ namespace sim
 		aux::pcap* get_pcap() const { return m_pcap.get(); }
 		void log_pcap(char const* filename);
 
+#ifdef LIBSIMULATOR_VERIF
+		// verification knob: where the ephemeral port counter starts, so the
+		// wrap-around can be reached without 63000 binds
+		void verif_set_next_bind_port(std::uint16_t p) { m_next_bind_port = p; }
+#endif
+
 	private:
 		struct timer_compare
 		{
